@@ -206,7 +206,7 @@ def run(tier, seed):
                    "alone, index and reference-origin entries of removed elements gone and of kept ones intact, element lists of the other files identical.",
         assumptions=["C10_self_contained is stated under the XML round-trip hypothesis (C01) and checked by the oracle (every file text is re-loaded)",
                      "set_filename is not part of the histories (it cannot change any membership)",
-                     "Pending10 (move, remove_file of the last file) is covered by correspondence + oracle only"])
+                     "all 26 operation constructors are covered by C10_inv; excluded shapes: Known10 (3 finding classes with witnesses), Unowned (remove_file of a file registered in a model it does not refer to: unreachable), RootNamedLast (table sets whose root type is a named type: none)"])
 
 
 def replay(path):
